@@ -142,7 +142,7 @@ def episode_job(job_id, spec, variant, n, B, mode, source_filter=None, nsteps=No
         def cex_builder(E_, neg, tag=None):
             reps = []
             for label, m in candidate_models(E_, neg, inst):
-                reps.append(dict(model_replay(sp, n, variant, inst, acts, B, m), model_kind=label, mode=mode))
+                reps.append(dict(model_replay(sp, n, variant, inst, acts, B, m), model_kind=label, mode=mode, bound=Tb))
             return reps
 
         for t in range(Tb + 1):
